@@ -642,7 +642,9 @@ def sequences(an, rep, features="default"):
                 forms.add("seq")
                 pre, body, suf = split_loop(ev)
                 a, bdy = _abstract_writer(pre), _abstract_writer(body)
-                okk = a == [("w", "var_i32", ("len", "self"))] and len(bdy) == 1 and bdy[0][0] == "sub" and not suf
+                wpre = [e for e in pre if e[0] == "w"]
+                okk = len(a) == 1 and a[0][:2] == ("w", "var_i32") and len(wpre) == 1 and _is_self_len(wpre[0][2]) and \
+                    len(bdy) == 1 and bdy[0][0] == "sub" and not suf
                 R.check(okk, "<%s>" % s, "hand-written loop", "hand-written sequence must be VarI32(len(self)) then one nested "
                         "write per element; found %s (%s)* %s" % (a, bdy, _abstract_writer(suf)), mir.loc(wb, 0),
                         sample={"type": s, "seq": "VarI32(len) (Sub T)*"})
@@ -660,6 +662,18 @@ def sequences(an, rep, features="default"):
             continue
         _check_seq_reader(R, G9, G8, s, rb, core)
     return R
+
+
+def _is_self_len(term):
+    """the number of elements of `self`: len() of something rooted at self, or the const generic length of an array"""
+    for x in mir.walk_expr(term):
+        if x[0] == "len" or (x[0] == "call" and (x[1] in guards.PURE_LEN or x[1].endswith("::len"))):
+            inner = x[1] if x[0] == "len" else x[3][0]
+            if any(y[0] == "arg" and y[1] == 1 for y in mir.walk_expr(inner)):
+                return True
+        if x[0] == "const" and x[2] is None and x[3] and re.match(r"^[A-Z]\w*(/#\d+)?$", x[3]):
+            return True
+    return False
 
 
 def _cast_equation(term):
